@@ -1096,8 +1096,11 @@ impl<T: RadixSortable> AdvancedRadixSort<T> {
     /// Select the optimal sorting strategy based on data characteristics
     fn select_strategy(&self, data: &[T]) -> Result<SortingStrategy> {
         // If a specific strategy is forced, use it
+        // (forcing `Adaptive` means: let the adaptive selection below decide)
         if let Some(strategy) = self.config.force_strategy {
-            return Ok(strategy);
+            if strategy != SortingStrategy::Adaptive {
+                return Ok(strategy);
+            }
         }
 
         // If adaptive strategy is disabled, default to LSD radix sort
